@@ -131,6 +131,16 @@ def cases():
          ["Sa", "get_data", 1, {"E0": {"e": "a1"}, "time": 2}], ["Sa", "get_data", 2, {"E0": {"e": "a2"}, "time": 2}],
          ["Sa", "get_data", 3, {"E0": {"e": "a3"}, "time": 4}], ["Sa", "get_data", 4, {"E0": {"e": "a4"}, "time": 4}],
          ["Sb", "step", 1, None], ["Sb", "step", 2, None], ["Sb", "step", 3, None]])
+    # ... and the same kind of simulator whose stamp goes STALE: it announced output time 0 in its first step and never rewrites it; at
+    # the step at time 2 that is an output time in the past - the run must abort naming the simulator (seed C13-h: the stamp was
+    # popped out of the simulator's own dictionary after the first reply, the stale one was never seen)
+    add("reused_reply_with_stale_time", ["C13"],
+        {"sims": [{"sid": "Sa", "type": "event-based", "initev": True, "reuse": True}, {"sid": "Sb", "type": "event-based", "reuse": True}],
+         "transport": "local", "conns": [{"src": "Sa", "dst": "Sb", "sa": "e", "da": "ti"}], "until": 6},
+        [["Sa", "step", 1, 2], ["Sa", "step", 2, 4], ["Sa", "step", 3, None],
+         ["Sa", "get_data", 1, {"E0": {"e": "a1"}, "time": 0}], ["Sa", "get_data", 2, {"E0": {"e": "a2"}, "time": 0}],
+         ["Sa", "get_data", 3, {"E0": {"e": "a3"}, "time": 0}],
+         ["Sb", "step", 1, None], ["Sb", "step", 2, None], ["Sb", "step", 3, None]])
     # D9: time-based simulator returning no next step
     add("tb_returns_none", ["C13"],
         {"sims": [{"sid": "Sa", "type": "time-based"}, {"sid": "Sb", "type": "time-based"}],
